@@ -149,8 +149,6 @@ def check(pm: ProgramModel, ctx: Ctx) -> None:
               "every mandatory child shares its parent's set", bad="; ".join(bad_mand[:2]))
     whole(pm, ctx, mb, entry)
     check_wrapper(pm, ctx, "C15-WRAP", "FMAtomicSets", "get_atomic_sets", "fm_atomic_sets")
-    from .c19 import op_sequences
-    op_sequences(pm, ctx, ModelBuilder(pm), [pm.cls(n_) for n_ in ('FMAtomicSets',) if pm.has_cls(n_)], "C15")
     ctx.floor(rule, "step evaluations", n_steps, 60)
 
 
